@@ -10,7 +10,10 @@
 (* A-layer facts about one scoring call on rows a..b-1 (0-based, half      *)
 (* open) of a sequence striped over C columns with R rows:                 *)
 (*   ShapeOK  L < M or a = b : no rows, nothing to iterate                 *)
-(*            otherwise      : b - a rows, max_index = L - M + 1           *)
+(*            otherwise      : b - a rows, max_index = L - M + 1 as far as *)
+(*                             the table can hold it (a sub-range of rows  *)
+(*                             holds fewer positions; what the accessor    *)
+(*                             reports beyond the table is no part of C01) *)
 (*   CellsOK  cell (r - a, c) = WindowScore(c*R + r) for every valid       *)
 (*            position c*R + r <= L - M                                    *)
 (*   PadInv   (second sentence of C07) if the wildcard column is -inf,     *)
@@ -33,7 +36,9 @@ ShapeOK(e) ==
   LET L == Len(e.seq)  M == Len(e.pssm) IN
   IF L < M \/ e.a >= e.b
   THEN e.nrows = 0 /\ e.cells = <<>>
-  ELSE e.nrows = e.b - e.a /\ Len(e.cells) = e.nrows /\ e.max_index = L - M + 1
+  ELSE /\ e.nrows = e.b - e.a /\ Len(e.cells) = e.nrows
+       /\ LET cap == e.nrows * e.C  n == L - M + 1 IN
+            (IF e.max_index < cap THEN e.max_index ELSE cap) = (IF n < cap THEN n ELSE cap)
 
 BadCells(e) ==
   LET L == Len(e.seq)  M == Len(e.pssm)  R == NRows(L, e.C)  W == e.K - 1 IN
